@@ -1462,3 +1462,55 @@ Q(name="e2_datagrams_send", props=["C16"], func=r"datagrams\.rs:18:1[^>]*>::send
   functions=["Datagrams::send"], pre=lambda c: "true", post=dsend_post,
   bounds="every configuration, max_size verdict, datagram length and drop flag: Disabled iff receiving is disabled locally; UnsupportedByPeer iff max_size is None; TooLarge iff length > min(max_size, send buffer size); with drop the queue is trimmed for exactly this length; without drop a full buffer gives Blocked and queues nothing; only then is the datagram queued; make_space_for / has_send_buffer_space: dgram_send_space obligations",
   replay=("dgram_api_native", lambda m: [dict(peer=p_, len_=l, drop=d) for (p_, l) in ((65535, 100), (50, 41), (50, 42), (65535, 2000)) for d in (0, 1)]))
+
+
+# ------------------------------------------------------------------ C14: a Retry token binds the client's address and its original destination CID
+def _agg_eq(c, st_a, a, st_b, b, leaves):
+    return and_(*[eq(c.ex.read_key(st_a, a + l, s).t, c.ex.read_key(st_b, b + l, s).t) for l, s in leaves])
+
+
+_SOCKADDR = [("#discr", I64)] + [("@V4.0.0.0[%d]" % i, U8) for i in range(4)] + [("@V4.0.1", ("bv", 16, False))] + \
+            [("@V6.0.0.0[%d]" % i, U8) for i in range(16)] + [("@V6.0.1", ("bv", 16, False))]
+_CID = [(".0", U8)] + [(".1[%d]" % i, U8) for i in range(20)]
+
+
+def retry_post(c, p):
+    st = p.p.state
+    mr = p.called(r"Incoming::may_retry$")
+    enc = p.called(r"Token::encode$")
+    cu = p.called(r"Endpoint::clean_up_incoming$")
+    is_err = eq(c.ex.read_key(st, "_0#discr", I64).t, bv(1))
+    if len(mr) != 1 or mr[0][1][0] != ("ref", "_2"):
+        return "false"
+    if not enc:
+        # no token is minted: only because this attempt may not be retried (it already carries a validated token);
+        # the attempt is handed back untouched
+        return and_(not_(mr[0][2]), is_err, "true" if not cu else "false")
+    if len(enc) != 1 or len(cu) != 1 or enc[0][1][0][0] != "ref":
+        return "false"
+    tok = enc[0][1][0][1]                      # the Token being sealed
+    snap = _Snap(st, enc[0][3])
+    INC = "_2"
+    addr = "%s.%d.0" % (INC, c.field("endpoint.rs", "Incoming", "addresses"))          # FourTuple.remote is the first field
+    hdr = "%s.%d.%d" % (INC, c.field("endpoint.rs", "Incoming", "packet"), c.field("packet.rs", "InitialPacket", "header"))
+    dcid = "%s.%d" % (hdr, c.field("packet.rs", "InitialHeader", "dst_cid"))
+    now = p.called(r"TimeSource>::now$")
+    if len(now) != 1:
+        return "false"
+    pay = tok + ".0"
+    conj = [mr[0][2], not_(is_err),
+            eq(c.ex.read_key(snap, pay + "#discr", I64).t, bv(0)),                                   # TokenPayload::Retry
+            _agg_eq(c, snap, pay + "@Retry.0", st, addr, _SOCKADDR),                              # bound to the client's address AND port
+            _agg_eq(c, snap, pay + "@Retry.1", st, dcid, _CID)]                                   # and to the DCID of its first Initial
+    # issued at the server's current time
+    conj.append(eq(c.ex.read_key(snap, pay + "@Retry.2.0.0.0", I64).t, c.ex.read_key(st, now[0][2] + ".0.0.0", I64).t))
+    # the Retry goes back to where the Initial came from
+    conj.append(_agg_eq(c, st, "_0@Ok.0.%d" % 0, st, addr, _SOCKADDR))
+    return and_(*conj)
+
+
+Q(name="e2_endpoint_retry_token", props=["C14"], func=r"endpoint\.rs:61:1[^>]*>::retry$",
+  pure=[r"may_retry$", r"TimeSource>::now$"], allowed_panics=r"unwrap_failed|attempt to|handle_error|capacity_overflow|panic",
+  functions=["Endpoint::retry"], pre=lambda c: "true", post=retry_post,
+  bounds="every attempt: a Retry is produced exactly when Incoming::may_retry holds; the token sealed into it is a Retry token for the attempt's remote address (IP and port), the destination CID of its Initial and the server's current time; the attempt is cleaned up; the datagram is addressed to that same remote; RNG, CID generator, token key, header encoding and retry tag opaque",
+  replay=("endpoint_retry_token_native", lambda m: [dict(x=0)]))
